@@ -51,10 +51,29 @@ type cell struct {
 	global string // non-empty: the cell is a view on globals[global]
 }
 
+// env is one layer of the lexical environment. Every executed declaration
+// opens a new layer for the statements after it, so a closure created before
+// a declaration does not see it (names resolve lexically). Layers of the same
+// block share the block id.
 type env struct {
 	vars   map[string]*cell
 	parent *env
+	block  int
 }
+
+var blockIDs int
+
+// lookupBlock finds a name declared in the same block as e.
+func (e *env) lookupBlock(n string) *cell {
+	for x := e; x != nil && x.block == e.block; x = x.parent {
+		if c, ok := x.vars[n]; ok {
+			return c
+		}
+	}
+	return nil
+}
+
+func layer(p *env) *env { return &env{parent: p, block: p.block} }
 
 func (e *env) lookup(n string) *cell {
 	for ; e != nil; e = e.parent {
@@ -74,7 +93,7 @@ func (e *env) define(n string, v V) *cell {
 	return c
 }
 
-func child(p *env) *env { return &env{parent: p} }
+func child(p *env) *env { blockIDs++; return &env{parent: p, block: blockIDs} }
 
 type ctl int
 
@@ -226,15 +245,25 @@ func (in *Interp) unsup(format string, a ...any) {
 
 // block executes statements; newScope opens a fresh block scope.
 func (in *Interp) block(body []gen.Stmt, e *env, fe *fenv, newScope bool) comp {
+	c, _ := in.blockEnv(body, e, fe, newScope)
+	return c
+}
+
+// blockEnv also returns the environment reached after the last executed statement.
+func (in *Interp) blockEnv(body []gen.Stmt, e *env, fe *fenv, newScope bool) (comp, *env) {
 	if newScope {
 		e = child(e)
 	}
 	for _, s := range body {
+		switch s.(type) {
+		case gen.Define, gen.Var, gen.Const, gen.Param, gen.Global:
+			e = layer(e)
+		}
 		if c := in.stmt(s, e, fe); c.k != cNormal {
-			return c
+			return c, e
 		}
 	}
-	return normal
+	return normal, e
 }
 
 func throwC(e *ErrV) comp { return comp{cThrow, e} }
@@ -254,7 +283,7 @@ func (in *Interp) stmt(s gen.Stmt, e *env, fe *fenv) comp {
 		vals := destructure(v, len(s.Names))
 		for i, n := range s.Names {
 			// `:=` re-uses a name already declared in this very scope, defines the others
-			if c, ok := e.vars[n]; ok {
+			if c := e.lookupBlock(n); c != nil {
 				in.setCell(c, vals[i])
 			} else {
 				e.define(n, vals[i])
@@ -456,7 +485,7 @@ func (in *Interp) stmt(s gen.Stmt, e *env, fe *fenv) comp {
 		if s.HasCatch && s.CatchName != "" {
 			te.define(s.CatchName, Undefined{})
 		}
-		c := in.block(s.Body, te, fe, false)
+		c, be := in.blockEnv(s.Body, te, fe, false)
 		if c.k == cThrow && s.HasCatch {
 			if isStackOverflow(c.v) {
 				return c
@@ -464,7 +493,7 @@ func (in *Interp) stmt(s gen.Stmt, e *env, fe *fenv) comp {
 			if s.CatchName != "" {
 				te.vars[s.CatchName].v = c.v
 			}
-			c = in.block(s.Catch, te, fe, false)
+			c, be = in.blockEnv(s.Catch, be, fe, false)
 		}
 		if s.HasFinally {
 			if c.k == cThrow && isStackOverflow(c.v) {
@@ -473,7 +502,7 @@ func (in *Interp) stmt(s gen.Stmt, e *env, fe *fenv) comp {
 			if c.k != cNormal {
 				in.PendingFinally++
 			}
-			fc := in.block(s.Finally, te, fe, false)
+			fc := in.block(s.Finally, be, fe, false)
 			if fc.k != cNormal {
 				return fc
 			}
